@@ -166,6 +166,11 @@ NumCells(cs) == SelectSeq(cs, LAMBDA c : ~c.n /\ c.hasF /\ c.fk = "num")
 RECURSIVE Sum2(_)
 Sum2(cs) == IF cs = <<>> THEN 0 ELSE Head(cs).f2 + Sum2(Tail(cs))       \* twice the sum
 CountNN(cs) == Len(SelectSeq(cs, LAMBDA c : ~c.n))
+\* the k-th smallest number (in halves) and four times the median (the mean of the two middle numbers when their count is even)
+Kth2(ns, k) == CHOOSE x \in {ns[i].f2 : i \in 1..Len(ns)} :
+                 /\ Cardinality({i \in 1..Len(ns) : ns[i].f2 < x}) < k
+                 /\ Cardinality({i \in 1..Len(ns) : ns[i].f2 <= x}) >= k
+Median4(ns) == LET n == Len(ns) IN IF n % 2 = 1 THEN 2 * Kth2(ns, (n + 1) \div 2) ELSE Kth2(ns, n \div 2) + Kth2(ns, n \div 2 + 1)
 Min2(cs) == CHOOSE x \in {NumCells(cs)[i].f2 : i \in 1..Len(NumCells(cs))} : \A i \in 1..Len(NumCells(cs)) : x <= NumCells(cs)[i].f2
 Max2(cs) == CHOOSE x \in {NumCells(cs)[i].f2 : i \in 1..Len(NumCells(cs))} : \A i \in 1..Len(NumCells(cs)) : x >= NumCells(cs)[i].f2
 
